@@ -37,6 +37,8 @@ type P[X sigma.Statement, W sigma.Witness, A sigma.Statement, S sigma.State, Z s
 
 	Extract func(x X, a A, es []sigma.ChallengeBytes, zs []Z) (W, error)
 	NR      int // number of field elements Commit draws from the prng (exact mode scripting)
+	ZArity  bool // the response is a vector whose length the decoder does not fix (Okamoto)
+	AArity  bool // the commitment / statement is such a vector (elcomop)
 }
 
 func (p *P[X, W, A, S, Z]) exact() bool { return p.PX != nil }
